@@ -416,10 +416,10 @@ func c04NilItems(r *Run) {
 	}
 }
 
-// the head of a v-for, every string up to length 6 over {a b blank ( ) , "in" " in "} plus written-out spellings
+// the head of a v-for, every string up to length 4 (6 thorough) over {a b blank tab newline ( ) , "in" " in "} plus written-out spellings
 func c04Heads(r *Run) {
-	sigma := []string{"a", "b", " ", "(", ")", ",", "in", " in "}
-	max := 5
+	sigma := []string{"a", "b", " ", "(", ")", ",", "in", " in ", "\t", "\n"}
+	max := 4
 	if r.Thorough() {
 		max = 6
 	}
@@ -436,7 +436,9 @@ func c04Heads(r *Run) {
 	}
 	gen("", max)
 	all = append(all, "item in items", "(item) in items", "( item ) in items", "(i, item) in items", "(i,item) in items", "( i , item )  in  items ", " x  in  xs.list[0] ",
-		"(a, b, c) in xs", "() in xs", "(,) in xs", "(a,) in xs", "(,b) in xs", "x in", "x in ", " in xs", "x of xs", "x\tin\txs", "x in y in z", "(x in xs", "x) in xs", "((a, b)) in xs", "(a, (b)) in xs", "index in in in")
+		"(a, b, c) in xs", "() in xs", "(,) in xs", "(a,) in xs", "(,b) in xs", "x in", "x in ", " in xs", "x of xs", "x\tin\txs", "x in y in z", "(x in xs", "x) in xs", "((a, b)) in xs", "(a, (b)) in xs", "index in in in",
+		// heads wrapped over lines or aligned with tabs
+		"(i, v)\n  in items", "(i, v) in\n  items", "v\t in \titems", "(i,\n v) in items", "\n(i, v) in items\n", "v in\titems", "v\tin items", "(i, v) in \n items.list", "v \n in \n items")
 	for _, h := range all {
 		vars, coll, ok := vuego.VerifParseFor(h)
 		var obs Obs
